@@ -261,6 +261,8 @@ impl Kademlia {
                 for action in actions {
                     match self.service.open_substream(peer) {
                         Ok(substream_id) => {
+                            // Track the substream, otherwise its open failure would be ignored.
+                            self.pending_substreams.insert(substream_id, peer);
                             context.add_pending_action(substream_id, action);
                         }
                         Err(error) => {
